@@ -466,7 +466,7 @@ def r_mode_copy(ctx):
     penalties, baud rate, OSNR threshold, tx OSNR, bit rate, format)"""
     from .common import mode_copy_rule
     mode_copy_rule(ctx, 'R10.mode-copy', 'the response would report a mode the request object does not hold')
-    ctx.need('R10.mode-copy', 3)
+    ctx.need('R10.mode-copy', 2)
 
 
 def rn_arg_roles(ctx):
